@@ -309,7 +309,8 @@ Definition CommitDone (st : sess) (f : frame) (rest : list frame) (st' : sess) :
   | [] => stack st' = []
   | p :: rest' => exists m rest2, stack st' = m :: rest2 /\ map lists_of rest2 = map lists_of rest' /\ length rest2 = length rest' /\
                     fstate m = ACTIVE /\ fid m = fid p /\
-                    (forall x, kdom (fks m) x -> hdA st x \/ kdom (fks p) x)
+                    (forall x, kdom (fks m) x -> hdA st x \/ kdom (fks p) x) /\
+                    committed st' = committed st
   end.
 
 Lemma commit_head_core : forall st gs f rest r st', Core st gs -> stack st = f :: rest ->
@@ -367,6 +368,7 @@ Proof.
     split; [cbn; destruct C1 as [_ _ D _ _]; destruct D as [D1 _ _ _]; rewrite Hs1 in D1; cbn in D1;
             destruct D1 as [_ [_ [_ [_ F5]]]]; apply F5; left; reflexivity|].
     split; [cbn; congruence|].
+    split; [|unfold nested_final; destruct (fconn f1); cbn; congruence].
     intros x Hx. unfold kdom in Hx.
     assert (Hk : ks_find x (fks (merge_into p1 f1)) = match ks_find x (fks f1) with Some e => Some e | None => ks_find x (fks p1) end).
     { unfold merge_into. cbn. apply ks_find_fold.
@@ -403,7 +405,7 @@ Proof.
     destruct rest as [|p rest'].
     + destruct fuel as [|fuel']; [cbn in Hl; lia|]. cbn [commit_all] in H2. rewrite CD in H2. inversion H2; subst.
       exists gs1. split; [exact C1|]. auto.
-    + destruct CD as (m & rest2 & S1 & K1 & L1 & M1 & I1 & D1).
+    + destruct CD as (m & rest2 & S1 & K1 & L1 & M1 & I1 & D1 & _).
       apply (IH s1 gs1 r st' C1); auto.
       * rewrite S1. cbn [tl]. apply (PD_after_commit st gs f p rest' s1 gs1 m rest2); auto. apply lists_fks; exact K1.
       * rewrite S1. cbn in *. lia.
@@ -428,7 +430,8 @@ Qed.
 Lemma commit_upto_core : forall fuel n st gs r st', Core st gs ->
   PD (hdA st) (map fks (tl (frames_upto_parent n (stack st)))) ->
   commit_upto fuel n st = (r, st') -> r <> Unmodelled ->
-  exists gs', Core st' gs' /\ (r = Ok -> is_clean st' = true).
+  exists gs', Core st' gs' /\ (r = Ok -> is_clean st' = true) /\
+    (committed st' = committed st \/ (r = Ok /\ stack st' = [])).
 Proof.
   induction fuel as [|fuel IH]; intros n st gs r st' C HP H Hr; [inversion H; subst; congruence|].
   cbn [commit_upto] in H. unfold head_is in H.
@@ -438,9 +441,10 @@ Proof.
   cbn [frames_upto_parent] in HP.
   destruct (Nat.eqb (fid f) n) eqn:En.
   - cbn [tl] in HP. rewrite <- firstn_map in HP.
-    destruct (commit_head_core st gs f rest r st' C Hs HP H Hr) as (_ & _ & _ & [[X [C1 _]]|[X [gs1 [C1 [Cl1 _]]]]]).
-    + exists gs. split; [exact C1|]. intros Y; congruence.
-    + exists gs1. split; [exact C1|]. auto.
+    destruct (commit_head_core st gs f rest r st' C Hs HP H Hr) as (_ & _ & _ & [[X [C1 [K1 _]]]|[X [gs1 [C1 [Cl1 CD]]]]]).
+    + exists gs. split; [exact C1|]. split; [intros Y; congruence|left; exact K1].
+    + exists gs1. split; [exact C1|]. split; [auto|].
+      destruct rest as [|p rest']; [right; auto|]. destruct CD as (m & rest2 & _ & _ & _ & _ & _ & _ & K). left; exact K.
   - cbn [tl] in HP.
     assert (HP1 : PD (hdA st) (firstn 1 (map fks rest))).
     { destruct rest as [|p rest']; [exact I|]. destruct (fup_head n p rest') as [X EX]. rewrite EX in HP.
@@ -453,7 +457,10 @@ Proof.
         destruct fuel; cbn [commit_upto] in H2; [inversion H2; subst; congruence|].
         unfold head_is in H2. rewrite CD in H2. apply bind_inv in H2. unfold commit_head in H2. rewrite CD in H2.
         destruct H2 as [[s2 [X _]]|[X _]]; inversion X; subst; congruence.
-      * destruct CD as (m & rest2 & S1 & K1 & L1 & M1 & I1 & D1).
+      * destruct CD as (m & rest2 & S1 & K1 & L1 & M1 & I1 & D1 & Kc).
+        assert (Goal' : exists gs', Core st' gs' /\ (r = Ok -> is_clean st' = true) /\
+                          (committed st' = committed s1 \/ (r = Ok /\ stack st' = []))).
+        2:{ destruct Goal' as [gs2 [G1 [G2 [G3|G3]]]]; exists gs2; split; auto; split; auto. left. congruence. }
         apply (IH n s1 gs1 r st' C1); auto.
         rewrite S1. cbn [frames_upto_parent]. rewrite I1.
         cbn [frames_upto_parent] in HP.
@@ -464,8 +471,8 @@ Proof.
         destruct (Nat.eqb (fid p) n); cbn [tl] in *.
         -- rewrite <- firstn_map. rewrite (lists_fks _ _ K1). rewrite firstn_map. exact Q.
         -- rewrite (fup_lists n rest2 rest' K1). exact Q.
-    + destruct (commit_head_core st gs f rest r st' C Hs HP1 H1 Hr) as (_ & _ & _ & [[X [C1 _]]|[X _]]); [|congruence].
-      exists gs. split; [exact C1|]. intros Y. congruence.
+    + destruct (commit_head_core st gs f rest r st' C Hs HP1 H1 Hr) as (_ & _ & _ & [[X [C1 [K1 _]]]|[X _]]); [|congruence].
+      exists gs. split; [exact C1|]. split; [intros Y; congruence|left; exact K1].
 Qed.
 
 (* ------------------------------------------------------------------ the boolean guard g2 gives PD *)
@@ -510,17 +517,18 @@ Proof.
 Qed.
 
 Lemma t_commit_core : forall st gs n r st', Core st gs -> g2_ok st n = true -> t_commit n st = (r, st') -> r <> Unmodelled ->
-  exists gs', Core st' gs' /\ (r = Ok -> is_clean st' = true).
+  exists gs', Core st' gs' /\ (r = Ok -> is_clean st' = true) /\
+    (committed st' = committed st \/ (r = Ok /\ stack st' = [])).
 Proof.
   intros st gs n r st' C Hg H Hr. unfold t_commit in H.
-  destruct (find_frame n st) as [fr|] eqn:Ef; [|inversion H; subst; exists gs; split; [exact C|intros X; discriminate]].
+  destruct (find_frame n st) as [fr|] eqn:Ef; [|inversion H; subst; exists gs; split; [exact C|split; [intros X; discriminate|left; reflexivity]]].
   assert (HP : PD (hdA st) (map fks (tl (frames_upto_parent n (stack st))))).
   { unfold g2_ok in Hg. destruct (stack st) as [|f rest] eqn:Hs; [exact I|].
     destruct (fup_head n f rest) as [X EX]. rewrite EX in *. cbn [tl].
     rewrite <- Hs in EX. apply (guard_PD st gs f X C); eauto. }
-  destruct (check_prereq fr M_commit); [inversion H; subst; exists gs; split; [exact C|intros X; discriminate]|].
+  destruct (check_prereq fr M_commit); [inversion H; subst; exists gs; split; [exact C|split; [intros X; discriminate|left; reflexivity]]|].
   destruct (tstate_eqb (fstate fr) PREPARED).
   - eapply commit_upto_core; eauto.
-  - destruct (check_prereq fr M_prepare); [inversion H; subst; exists gs; split; [exact C|intros X; discriminate]|].
+  - destruct (check_prereq fr M_prepare); [inversion H; subst; exists gs; split; [exact C|split; [intros X; discriminate|left; reflexivity]]|].
     eapply commit_upto_core; eauto.
 Qed.
